@@ -7,6 +7,7 @@ correspondence check ties it to MethodManager on generated (program, schedule, e
 """
 from __future__ import annotations
 
+import re
 from collections import Counter
 
 from harness.gen_pcode import gen_edit_script, gen_program, gen_schedule, gen_snippet
@@ -39,91 +40,205 @@ def marks_of(snap) -> list[str]:
     return [x for x in str(v or "").split("; ") if x]
 
 
-def run_with_edits(pcode: str, edits: list[tuple[int, list]], total: int, horizon: int | None = None):
+_HEAD = re.compile(r"^\s*(?:\d+(?:\.\d+)?\s+)?([A-Za-z][A-Za-z ]*?)\s*(?::\s*(.*?))?\s*$")
+
+
+def stable_effects(pcode: str) -> tuple[set[str], set[str]]:
+    """(Mark names, UOD command names) whose number of executions in a run of `pcode` from the start is a
+    function of the text alone: the line is not inside an Alarm or Macro body (those run once per activation /
+    call) and no other line sets the same Mark / issues the same command.  Derived from the text (indentation),
+    not from the parser under test."""
+    from harness.engine_run import UOD_COMMANDS
+    rows, stack = [], []           # stack of (indent, head)
+    for ln in pcode.splitlines():
+        if not ln.strip() or ln.strip().startswith("#"):
+            continue
+        ind = len(ln) - len(ln.lstrip(" "))
+        m = _HEAD.match(ln.split("#")[0])
+        head, arg = (m.group(1), (m.group(2) or "").strip()) if m else ("?", "")
+        while stack and stack[-1][0] >= ind:
+            stack.pop()
+        rows.append((head, arg, any(h in ("Alarm", "Macro") for _, h in stack)))
+        stack.append((ind, head))
+    marks = Counter(a for h, a, _ in rows if h == "Mark")
+    cmds = Counter(h for h, _, _ in rows if h in UOD_COMMANDS)
+    unstable_m = {a for h, a, u in rows if h == "Mark" and u}
+    unstable_c = {h for h, _, u in rows if h in UOD_COMMANDS and u}
+    return ({a for a, k in marks.items() if k == 1 and a not in unstable_m},
+            {c for c, k in cmds.items() if k == 1 and c not in unstable_c})
+
+
+def active_at(run) -> str:
+    """What the interpreter was busy with at the moment of an edit (most specific first)."""
+    interp = run.engine.interpreter
+    nodes = list(interp._program.get_all_nodes())
+    by_id = {n.id: n for n in nodes}
+    cls = lambda n: type(n).__name__          # noqa: E731
+    if any(cls(i.node) == "InjectedNode" for i in interp.interrupts):
+        return "injected-code"
+    # a Watch/Alarm inside a Watch/Alarm body whose interrupt is registered
+    if any(getattr(n, "interrupt_registered", False) and any(cls(q) in ("WatchNode", "AlarmNode") for q in n.parents)
+           for n in nodes if cls(n) in ("WatchNode", "AlarmNode")):
+        return "nested-interrupt"
+    # a Block/Watch/Alarm/Macro scope is active (Scope Time tag's stack beyond the program scope)
+    stack = [i for i in getattr(run.engine.tags["Scope Time"], "_stack", []) if i in by_id and cls(by_id[i]) != "ProgramNode"]
+    if stack:
+        kind = {"BlockNode": "block", "WatchNode": "watch", "AlarmNode": "alarm", "MacroNode": "macro",
+                "CallMacroNode": "macro"}.get(cls(by_id[stack[-1]]), "other")
+        return "in-scope:" + kind
+    cm = run.engine._command_manager
+    if cm is not None and any(getattr(r, "source", "") != "user" and r.name in run.uod.command_instances
+                              for r in cm.cmd_executing):
+        return "command-executing"
+    if interp.interrupts:
+        return "interrupt-registered"
+    return "main-sequence"
+
+
+ACTIVE_PRIORITY = ["nested-interrupt", "in-scope:block", "in-scope:watch", "in-scope:alarm", "in-scope:macro",
+                   "in-scope:other", "injected-code", "command-executing", "interrupt-registered", "main-sequence"]
+
+
+def runlog_items(run) -> dict[str, tuple[str, str]]:
+    """instance id -> (name, state) of the run log the engine reports."""
+    rl = run.engine.tracking.get_runlog()
+    return {i.id: (i.name, str(i.state)) for i in rl.items}
+
+
+def state_dict(ms) -> dict[str, list[str]]:
+    return {"started": sorted(ms.started_line_ids), "executed": sorted(ms.executed_line_ids),
+            "failed": sorted(ms.failed_line_ids)}
+
+
+def run_with_edits(pcode: str, edits: list[tuple[int, list]], total: int, horizon: int | None = None,
+                   injects: list | None = None):
     """Returns dict with per-edit info and the final marks / exec counts."""
     from harness.engine_run import EngineRun
     run = EngineRun(pcode)
     info = []
+    injects = sorted([list(x) for x in (injects or [])], key=lambda x: x[0])
+    per_tick_marks: list[list[str]] = []
     try:
         snap = None
         t = 0
-        for (at, script) in sorted(edits, key=lambda e: e[0]):
-            while t < at:
+
+        def tick_to(limit: int):
+            nonlocal snap, t
+            while t < limit:
+                while injects and injects[0][0] <= t:
+                    run.inject(injects.pop(0)[1])
                 snap = run.tick()
+                per_tick_marks.append(marks_of(snap))
                 t += 1
+        for (at, script) in sorted(edits, key=lambda e: e[0]):
+            tick_to(at)
             mm = run.engine.method_manager
             before = mm.get_method_state()
             cur = [(ln.id, ln.content) for ln in mm._method.lines]
             new = apply_edit_script(cur, script)
             old_map = dict(cur)
+            new_map = dict(new)
             # what the interpreter has really started (the method manager's own view is detached after a first edit)
             prot = {n.id for n in run.engine.interpreter._program.get_all_nodes()
                     if (n.started or n.completed) and not n.failed}
-            touches_started = any(i in prot and i in old_map and old_map[i] != c for i, c in new)
-            # a Watch/Alarm inside a Watch/Alarm body whose interrupt is registered at the time of the edit
-            # (separate known finding: the restarted enclosing handler then waits inside the nested one)
-            nested_reg = any(getattr(n, "interrupt_registered", False) and
-                             any(type(q).__name__ in ("WatchNode", "AlarmNode") for q in n.parents)
-                             for n in run.engine.interpreter._program.get_all_nodes()
-                             if type(n).__name__ in ("WatchNode", "AlarmNode"))
-            # a Block/Watch/Alarm/Macro scope is active at the time of the edit (Scope Time tag's stack beyond the root)
-            scope_tag = run.engine.tags["Scope Time"]
-            in_scope = len(getattr(scope_tag, "_stack", [])) > 1
+            changed = sorted(i for i, c in new if i in prot and i in old_map and old_map[i] != c)
+            deleted = sorted(i for i in old_map if i in prot and i not in new_map)
+            active = active_at(run)
             marks_before = marks_of(snap) if snap else []
+            rl_before = runlog_items(run)
+            interp_before = run.engine.interpreter
             status_before = (str(run.snapshot()["raw_tags"].get("Method Status")), str(run.snapshot()["raw_tags"].get("System State")),
                              run.engine.has_error_state())
             m = run.Mdl.Method(lines=[run.Mdl.MethodLine(id=i, content=c) for i, c in new], version=0)
             res = run.edit(m)
             after = run.engine.method_manager.get_method_state()
+            rl_after = runlog_items(run)
             status_after = (str(run.snapshot()["raw_tags"].get("Method Status")), str(run.snapshot()["raw_tags"].get("System State")),
                             run.engine.has_error_state())
-            info.append({"status_before": status_before, "status_after": status_after,"at": at, "res": res, "touches_started": touches_started, "nested_reg": nested_reg, "in_scope": in_scope, "new": new,
-                         "before": {"started": list(before.started_line_ids), "executed": list(before.executed_line_ids),
-                                    "failed": list(before.failed_line_ids)},
-                         "after": {"started": list(after.started_line_ids), "executed": list(after.executed_line_ids),
-                                   "failed": list(after.failed_line_ids)},
+            info.append({"status_before": status_before, "status_after": status_after, "at": at, "res": res,
+                         "changed_started": changed, "deleted_started": deleted, "active": active, "new": new,
+                         "before": state_dict(before), "after": state_dict(after),
+                         "method_before": cur,
+                         "method_after": [(ln.id, ln.content) for ln in run.engine.method_manager._method.lines],
+                         "runlog_before": rl_before, "runlog_after": rl_after,
+                         "same_interpreter": run.engine.interpreter is interp_before,
                          "marks_before": marks_before, "exec_before": len(run.exec_log)})
         # an accepted edit restarts the method (known finding): give the edited run as many ticks after its last
         # edit as the reference run gets in total, so that "a line is lost" is never a matter of the horizon
         last_edit = max([e[0] for e in edits], default=0)
         horizon = last_edit + total + 20 if horizon is None else horizon
-        while t < horizon:
-            snap = run.tick()
-            t += 1
-        return {"edits": info, "ticks": t, "marks": marks_of(snap), "method_ends": run.method_ends, "exec": Counter(e[1] for e in run.exec_log if e[0] == "init"),
+        tick_to(horizon)
+        accepted = [e for e in info if e["res"] == "ok"]
+        return {"edits": info, "ticks": t, "marks": marks_of(snap), "per_tick_marks": per_tick_marks,
+                "method_ends": run.method_ends,
+                "exec": Counter(e[1] for e in run.exec_log if e[0] == "init"), "exec_log": list(run.exec_log),
                 "raised": run.tick_errors, "status": snap["tags"].get("Method Status"),
                 "sys": str(snap["raw_tags"].get("System State")),
-                "final_pcode": "\n".join(c for _, c in (info[-1]["new"] if info and info[-1]["res"] == "ok" else []))}
+                "final_state": state_dict(run.engine.method_manager.get_method_state()),
+                "final_runlog": sorted(runlog_items(run).values()),
+                "final_pcode": "\n".join(c for _, c in (accepted[-1]["new"] if accepted else []))}
     finally:
         run.close()
 
 
-def oracle(case) -> list[Failure]:
+def oracle(case) -> list[Failure]:  # noqa: C901
     fails: list[Failure] = []
     total = case["total"]
-    a = run_with_edits(case["pcode"], case["edits"], total)
+    a = run_with_edits(case["pcode"], case["edits"], total, injects=case.get("injects"))
     first = True
-    accepted_any = False
+    accepted = [e for e in a["edits"] if e["res"] == "ok"]
     for e in a["edits"]:
         sfx = "" if first else "-after-earlier-edit"
-        if e["touches_started"] and e["res"] == "ok":
-            fails.append(Failure("edit-of-started-line-accepted" + sfx, case,
-                                 f"edit at tick {e['at']} changes a started/executed line and was accepted"))
-        if e["res"] != "ok" and e["status_before"] != e["status_after"]:
-            fails.append(Failure("rejected-edit-changed-engine-state" + sfx, case,
-                                 f"rejected edit at tick {e['at']}: (Method Status, System State, error) "
-                                 f"{e['status_before']} -> {e['status_after']}"))
         if e["res"] == "ok":
-            accepted_any = True
-            lost = [i for k in ("started", "executed", "failed") for i in e["before"][k]
-                    if i in dict(e["new"]) and i not in e["after"]["started"] + e["after"]["executed"] + e["after"]["failed"]]
+            # (A) an edit that changes -- or removes -- a line that has started must be rejected
+            if e["changed_started"]:
+                fails.append(Failure("edit-of-started-line-accepted" + sfx, case,
+                                     f"edit at tick {e['at']} changes started/executed line(s) {e['changed_started']} "
+                                     f"and was accepted"))
+            if e["deleted_started"]:
+                fails.append(Failure("deleted-started-line-accepted" + sfx, case,
+                                     f"edit at tick {e['at']} removes started/executed line(s) {e['deleted_started']} "
+                                     f"and was accepted"))
+            # (B) the reported method state contains everything it contained before
+            kept = dict(e["new"])
+            was = [i for k in ("started", "executed", "failed") for i in e["before"][k] if i in kept]
+            now = e["after"]["started"] + e["after"]["executed"] + e["after"]["failed"]
+            lost = [i for i in was if i not in now]
             if lost:
-                fails.append(Failure("method-state-lost-after-edit" + sfx, case,
+                shape = "emptied" if not now else "lost"
+                fails.append(Failure(f"method-state-{shape}-after-edit" + sfx, case,
                                      f"edit at tick {e['at']}: lines {lost} were started/executed/failed before the edit "
-                                     f"and are not reported afterwards"))
-        first = False
-    if accepted_any and not any(e["touches_started"] and e["res"] == "ok" for e in a["edits"]):
-        # compare with the final method loaded from the start
+                                     f"and are not reported afterwards (reported now: {now})"))
+            # (E) the run log of the run survives the edit
+            gone = [i for i in e["runlog_before"] if i not in e["runlog_after"]]
+            if gone:
+                shape = "emptied" if not e["runlog_after"] else "items-lost"
+                fails.append(Failure(f"run-log-{shape}-after-edit" + sfx, case,
+                                     f"edit at tick {e['at']}: {len(gone)} of {len(e['runlog_before'])} run log items are "
+                                     f"gone after the edit, e.g. {e['runlog_before'][gone[0]]}"))
+        else:
+            # (F) a rejected edit changes nothing
+            if e["status_before"] != e["status_after"]:
+                fails.append(Failure("rejected-edit-changed-engine-state" + sfx, case,
+                                     f"rejected edit at tick {e['at']}: (Method Status, System State, error) "
+                                     f"{e['status_before']} -> {e['status_after']}"))
+            if e["before"] != e["after"]:
+                fails.append(Failure("rejected-edit-changed-method-state" + sfx, case,
+                                     f"rejected edit at tick {e['at']}: method state {e['before']} -> {e['after']}"))
+            if e["method_before"] != e["method_after"]:
+                fails.append(Failure("rejected-edit-changed-method" + sfx, case,
+                                     f"rejected edit at tick {e['at']}: the engine's method text changed"))
+            if e["runlog_before"] != e["runlog_after"]:
+                fails.append(Failure("rejected-edit-changed-run-log" + sfx, case,
+                                     f"rejected edit at tick {e['at']}: run log before/after differ"))
+            if not e["same_interpreter"]:
+                fails.append(Failure("rejected-edit-replaced-interpreter" + sfx, case,
+                                     f"rejected edit at tick {e['at']}: the engine runs a new interpreter"))
+        if e["res"] == "ok":
+            first = False
+    premise = not any(e["changed_started"] or e["deleted_started"] for e in accepted)
+    if accepted and premise:
+        # (C, D) compare with the final method loaded from the start
         from harness.engine_run import EngineRun
         ref = EngineRun(a["final_pcode"])
         try:
@@ -138,45 +253,76 @@ def oracle(case) -> list[Failure]:
         # (a run that was error-paused before the edit stays paused until the user unpauses: not comparable)
         if ref_status != "Error" and a["status"] != "Error" and a["sys"].endswith("Running") and \
                 not any(e["status_before"][2] for e in a["edits"]):
-            got = Counter(a["marks"])
-            more = {m: (got[m], ref_marks[m]) for m in got if got[m] > ref_marks[m]}
-            less = {m: (got[m], ref_marks[m]) for m in ref_marks if got[m] < ref_marks[m]}
-            if more:
-                fails.append(Failure("edit-reexecutes-started-line", case,
-                                     f"marks set more often than in a run of the final method from the start: {more}"))
-            elif less:
-                sub = ":nested-interrupt-registered-at-edit" if any(
-                    e["nested_reg"] and e["res"] == "ok" for e in a["edits"]) else \
-                    ":edit-inside-active-scope" if any(e["in_scope"] and e["res"] == "ok" for e in a["edits"]) else ""
-                fails.append(Failure("edit-loses-line" + sub, case,
-                                     f"marks missing compared with a run of the final method from the start: {less}"))
-    if not accepted_any and a["edits"] and all(e["res"] != "ok" for e in a["edits"]):
-        # rejected edits must not affect the run
-        b = run_with_edits(case["pcode"], [], total, horizon=a["ticks"])   # same number of ticks
-        if b["marks"] != a["marks"] or b["exec"] != a["exec"]:
+            st_marks, st_cmds = stable_effects(a["final_pcode"])
+            nth = "first-edit" if len(accepted) == 1 else "later-edit"
+            act = min((e["active"] for e in accepted), key=ACTIVE_PRIORITY.index)
+            got_m, got_x = Counter(a["marks"]), a["exec"]
+            for kind, names, got, want in (("mark", st_marks, got_m, ref_marks), ("uod-command", st_cmds, got_x, ref_exec)):
+                more = {m: (got[m], want[m]) for m in sorted(names) if got[m] > want[m]}
+                less = {m: (got[m], want[m]) for m in sorted(names) if got[m] < want[m]}
+                if more:
+                    # the restart re-runs a completed line once per accepted edit at most
+                    often = any(g - w > len(accepted) for g, w in more.values())
+                    fails.append(Failure(f"edit-reexecutes-started-line:{kind}:{nth}:{act}" +
+                                         (":more-than-once-per-edit" if often else ""), case,
+                                         f"{kind}s that took effect more often than in a run of the final method from "
+                                         f"the start (got, reference): {more}"))
+                if less:
+                    fails.append(Failure(f"edit-loses-line:{kind}:{nth}:{act}", case,
+                                         f"{kind}s missing compared with a run of the final method from the start "
+                                         f"(got, reference): {less}"))
+    if not accepted and a["edits"]:
+        # rejected edits must not affect the run: the same run without them, tick for tick
+        b = run_with_edits(case["pcode"], [], total, horizon=a["ticks"], injects=case.get("injects"))
+        if b["per_tick_marks"] != a["per_tick_marks"] or b["exec_log"] != a["exec_log"]:
             fails.append(Failure("rejected-edit-affected-run", case,
-                                 f"marks with rejected edit {a['marks']} vs without {b['marks']}"))
+                                 f"marks with rejected edit {a['marks']} vs without {b['marks']}; "
+                                 f"command calls {len(a['exec_log'])} vs {len(b['exec_log'])}"))
+        if b["final_state"] != a["final_state"]:
+            fails.append(Failure("rejected-edit-affected-method-state", case,
+                                 f"final method state with rejected edit {a['final_state']} vs without {b['final_state']}"))
+        if b["final_runlog"] != a["final_runlog"]:
+            fails.append(Failure("rejected-edit-affected-run-log", case,
+                                 f"final run log with rejected edit {a['final_runlog']} vs without {b['final_runlog']}"))
     return fails
 
 
 def template_cases() -> list[dict]:
-    """Hand-made shapes: a not-started line above executed lines; a failed line above; a run halted in error."""
+    """Hand-made shapes: a not-started line above executed lines; a failed line above; a run halted in error;
+    every line changed / deleted in turn; a second edit after an accepted one; an edit while injected code runs."""
     out = []
     shapes = ["Watch: T0 > 5\n    Mark: w\nMark: a\nMark: b\nWait: 2s\nMark: c",
               "Macro: M\n    Mark: m\nMark: a\nMark: b\nWait: 2s\nMark: c",
               "Mark: a\nFrobnicate\nMark: b",
               "Mark: a\nMark: b\nCmdNum: lots\nMark: c",
-              "Block: B\n    Mark: a\n    Wait: 2s\n    End block\nMark: z"]
+              "Block: B\n    Mark: a\n    Wait: 2s\n    End block\nMark: z",
+              "Mark: a\nCmdB\nWait: 2s\nMark: b\nCmdA"]
     for sh in shapes:
         n = len(sh.splitlines())
         for at in (8, 12, 16):
             for k in range(n):
                 out.append({"pcode": sh, "edits": [[at, [["change", (k + 0.5) / n, "Mark: edited"]]]], "total": 60})
+                if at == 12:
+                    out.append({"pcode": sh, "edits": [[at, [["delete", (k + 0.5) / n]]]], "total": 60})
             out.append({"pcode": sh, "edits": [[at, [["append", "Mark: appended"]]]], "total": 60})
+        # a second edit (append / change of every line) after an accepted or a rejected first one
+        for first in ([["append", "Mark: one"]], [["change", 0.01, "Mark: nope"]]):
+            out.append({"pcode": sh, "edits": [[10, first], [24, [["append", "Mark: two"]]]], "total": 60})
+            for k in range(n):
+                out.append({"pcode": sh, "edits": [[10, first], [24, [["change", (k + 0.5) / (n + 1), "Mark: edited"]]]],
+                            "total": 60})
+        # edits while injected code is running
+        for sn in ("Mark: i1", "Wait: 1s\nMark: i1"):
+            for gap in (0, 1, 4):
+                out.append({"pcode": sh, "injects": [[8, sn]], "edits": [[8 + gap, [["append", "Mark: appended"]]]],
+                            "total": 60})
+                out.append({"pcode": sh, "injects": [[8, sn]], "edits": [[8 + gap, [["change", 0.01, "Mark: nope"]]]],
+                            "total": 60})
     return out
 
 
 WITNESS = {"pcode": "Mark: a\nWait: 1s\nMark: b", "edits": [(8, [["append", "Mark: c"]])], "total": 60}
+SNIPPETS = ["Mark: i1", "Wait: 1s\nMark: i1", "Wait: 0.5s", "Mark: i1\nWait: 2s\nMark: i2"]
 
 
 def gen_oracle_cases(ctx: Check, n: int) -> list[dict]:
@@ -186,7 +332,12 @@ def gen_oracle_cases(ctx: Check, n: int) -> list[dict]:
         pcode, _ = gen_program(rng, features={"mark", "wait", "cmd", "block", "watch", "thr", "macro"}, max_lines=8, max_depth=2)
         n_edits = rng.choice([1, 1, 1, 2])
         edits = sorted((rng.randrange(2, 40), gen_edit_script(rng)) for _ in range(n_edits))
-        out.append({"pcode": pcode, "edits": [list(e) for e in edits], "total": 140})
+        c = {"pcode": pcode, "edits": [list(e) for e in edits], "total": 140}
+        if rng.random() < 0.25:
+            # neutral snippets only (marks with names of their own, waits): the comparison is about the method's lines
+            at = max(1, edits[0][0] - rng.randrange(0, 6))
+            c["injects"] = [[at, rng.choice(SNIPPETS)]]
+        out.append(c)
     return out
 
 
